@@ -11,6 +11,29 @@ from serif import Vector, Table, DataType, AliasError, read_csv, set_repr_rows
 from serif import typing as styping
 
 MSGS = os.environ.get('DIFF_MSGS') == '1'
+
+# DIFF_ALIAS="old.path=new.path,...": paths relative to the serif package.  When a refactor is documented to rename or move a
+# private helper this harness calls by name, the old name is bound to the new object (only if the old name is absent) so the
+# probes still exercise the behaviour.
+import importlib
+def _resolve(path):
+	parts = path.split('.')
+	obj = serif
+	for i, part in enumerate(parts):
+		if hasattr(obj, part):
+			obj = getattr(obj, part)
+		else:
+			obj = importlib.import_module('serif.' + '.'.join(parts[:i + 1]))
+	return obj
+for _spec in filter(None, os.environ.get('DIFF_ALIAS', '').split(',')):
+	_old, _new = _spec.split('=')
+	_parent = _resolve(_old.rsplit('.', 1)[0])
+	_attr = _old.rsplit('.', 1)[1]
+	if _attr not in vars(_parent):
+		_target = _resolve(_new)
+		if isinstance(_parent, type) and type(_target).__name__ == 'function':
+			_target = staticmethod(_target)
+		setattr(_parent, _attr, _target)
 N = int(os.environ.get('DIFF_N', '1'))
 _ADDR = re.compile(r'0x[0-9a-fA-F]+')
 OUT = []
